@@ -578,7 +578,9 @@ func (s *vC05Sys) observe(h []string) {
 	}
 }
 
-func (s *vC05Sys) Key() string {
+func (s *vC05Sys) Key() string { return s.keyCanon() + "#deep" + vDeepHash(s.idx) }
+
+func (s *vC05Sys) keyCanon() string {
 	ids := []int{}
 	for id := range s.live {
 		ids = append(ids, int(id))
